@@ -1102,7 +1102,7 @@ def uf_app(name, args, mono=0):
 # everything switched on is listed in the evidence under `axioms`)
 AX_DEFAULT = {'sqrt_zero': True, 'sqrt_one': False, 'sqrt_exact': False, 'sqrt_mono': False,
               'atan_mono': True, 'atan2_scale': False, 'atan2_turn': False, 'odd_even': True, 'pythag': False,
-              'congruence': 'full'}
+              'congruence': 'full', 'f32_store_round': False}
 AX = dict(AX_DEFAULT)
 
 
@@ -1144,6 +1144,21 @@ def sym_sqrt(x):
                 EX.add_axiom(z3.Implies(z3.And(a >= 0, a2[0] >= 0), z3.And(z3.Implies(a < a2[0], s < v2), z3.Implies(a2[0] < a, v2 < s))), 'sqrt: strictly increasing')
     neg = band(x.finite(), x.v < 0)
     return SF(bsimp(bor(x.nan, x.ninf, neg)), s, x.pinf, False)
+
+
+def f32_round(x):
+    """opt-in model of storing a symbolic double into a float32 slot: the stored value is some real within a relative
+    2^-25 of x (a subset of what round-to-nearest can produce, so every behaviour found is realisable when replayed)"""
+    if not isinstance(x, SF):
+        return x
+    c = as_const(x)
+    if c is not None:
+        return c
+    r = z3.Real(EX.fresh_name('f32'))
+    eps = z3.RealVal(Fraction(1, 2 ** 25))
+    av = z3.If(x.v >= 0, x.v, -x.v)
+    EX.add_axiom(z3.And(r - x.v <= eps * av, x.v - r <= eps * av), 'float32 store: |stored - x| <= 2^-25 |x| (opt-in)')
+    return SF(x.nan, r, x.pinf, x.ninf)
 
 
 # ----------------------------------------------------------------- model evaluation
